@@ -1161,7 +1161,7 @@ class Translator:
             if tail is not None:
                 stmts = stmts + [("expr", tail[1], ("return", tail[1], tail))]
                 tail = None
-            def final(env2, ctx=ctx, where=where):
+            def final(env2, ind2=2, ctx=ctx, where=where):
                 if ret != "unit":
                     raise RectTrError(f"{where}: the end of the body is reached without a value")
                 return self.wrap_result(None, ctx), "never"
@@ -1241,11 +1241,11 @@ class Translator:
                     return "()", "unit"
                 return self.tr_expr(tail, env, ctx, expected, ind)
             if tail is None or tail[0] == "unit":
-                return final(env)
+                return final(env, ind)
             # a tail expression in a block that is followed by more code: treat as a statement
             return self.tr_stmts([("expr", tail[1], tail)], 0, None, env, ctx, expected, final, ind)
         s = stmts[i]
-        rest = lambda env2: self.tr_stmts(stmts, i + 1, tail, env2, ctx, expected, final, ind)
+        rest = lambda env2, ind2=ind: self.tr_stmts(stmts, i + 1, tail, env2, ctx, expected, final, ind2)
         kind = s[0]
         if kind == "let":
             _, line, pat, ty, e, mut = s
@@ -1328,7 +1328,7 @@ class Translator:
                 self.unify(ctyp, "bool", f"{self.where}: line {line}")
                 a, at = self.tr_stmts(then[2], 0, then[3], env, ctx, expected, rest, ind + 2)
                 if els is None:
-                    b, bt = rest(env)
+                    b, bt = rest(env, ind + 2)
                 else:
                     b, bt = self.tr_stmts(els[2], 0, els[3], env, ctx, expected, rest, ind + 2)
                 t = self.join(at, bt, line)
@@ -1474,8 +1474,8 @@ class Translator:
         envb = dict(env)
         envb["%frozen"] = frozenset(k for k in env if not k.startswith("%") and k != "self")
         btxt, _ = self.tr_stmts(body[2], 0, body[3], envb, ctx2, None,
-                                lambda env2: ("(LoopStep.continue_ self)", "never"), ind + 4)
-        rtxt, rt = rest(env)
+                                lambda env2, ind2=0: ("(LoopStep.continue_ self)", "never"), ind + 4)
+        rtxt, rt = rest(env, ind + 4)
         st = self.lean_type(ctx["self_type"])
         return (f"(match while_loop (σ := {st}) (ρ := {self.result_lean_type(ctx)}) fuel\n"
                 f"{pad}    (fun self => {cnd})\n"
@@ -1518,7 +1518,7 @@ class Translator:
                 if body[0] == "block":
                     btxt, bt = self.tr_stmts(body[2], 0, body[3], env2, ctx, expected, final, ind + 4)
                 elif body[0] == "unit":
-                    btxt, bt = final(env2)
+                    btxt, bt = final(env2, ind + 4)
                 elif body[0] == "return":
                     btxt, bt = self.tr_return(body, env2, ctx, ind + 4)
                 else:
